@@ -346,6 +346,7 @@ type c05Parsed struct {
 	result *big.Int
 	max    int
 	maxHdr int
+	maxTmp int
 	wide   int
 	gates  int
 }
@@ -412,8 +413,13 @@ func c05ParseStream(b []byte, nOutBits int) (*c05Parsed, error) {
 					return nil, fmt.Errorf("invalid gate op byte %#x at %d", gop, pos-1)
 				}
 				pos += 16 * rows
-				for _, id := range []int{a, bb, c} {
-					if id > p.max {
+				for k, id := range []int{a, bb, c} {
+					tmp := gop&(0x80>>uint(k)) != 0
+					if tmp {
+						if id > p.maxTmp {
+							p.maxTmp = id
+						}
+					} else if id > p.max {
 						p.max = id
 					}
 				}
@@ -620,6 +626,12 @@ func c05Program(c *Ctx, idx int, name string, p c05Prog, frag int) error {
 	if ps.wide > 0 {
 		c.Hist("32-bit-id-gates")
 	}
+	if ps.maxTmp > 0xffff {
+		c.Hist("tmp-index>65535")
+		if ps.max <= 0xffff {
+			c.Hist("tmp-index>65535-with-all-permanent-ids<=65535")
+		}
+	}
 	hdrEnd := s.otBegin - 16*ex.n0
 	if hdrEnd < 36 || hdrEnd > len(s.g2e) {
 		return fmt.Errorf("case %d: header not located", idx)
@@ -649,8 +661,22 @@ func c05Program(c *Ctx, idx int, name string, p c05Prog, frag int) error {
 		npr = 2 // not evaluated by the model (quadratic in the number of ids)
 	}
 	obs := L(I(0), ex.listing, L(ps.circs...), Ints(ps.retIDs), bigsSX(s.gRes), Big(new(big.Int).SetBytes(hdr)), L(recvOuts...),
-		L(I(1), I(npr)))
+		L(I(1), Bool(ex.constsTabled), I(npr)))
+	if ex.constsTabled {
+		c.Hist("consts-tabled")
+	} else {
+		seen := map[string]bool{}
+		for _, u := range ex.untabled {
+			if !seen[u] {
+				seen[u] = true
+				c.Hist("untabled-const-operand:" + u)
+			}
+		}
+	}
 	line := len(in.String()) + len(obs.String())
+	if name == "big-circuit" {
+		c.Note("case %d (%s): %d gates, max permanent id %d, max tmp index %d, line %d bytes", idx, name, ps.gates, ps.max, ps.maxTmp, line)
+	}
 	if line > 400000 {
 		c.Hist("case-too-large-for-correspondence")
 		return nil
@@ -704,6 +730,15 @@ func runC05(c *Ctx) error {
 	idx := 0
 	for _, f := range c05FixedProgs {
 		if err := c05Program(c, idx, f.name, c05Prog{src: f.src, g: f.g, e: f.e, feat: map[string]int{"fixed": 1}}, 0); err != nil {
+			return err
+		}
+		idx++
+	}
+	// one instruction whose own circuit has more than 65536 wires (its
+	// circuit-local tmp indices need the 32-bit encoding) in a program whose
+	// permanent wire ids all stay below 65536
+	for i := 0; i < c.N(1, 3); i++ {
+		if err := c05Program(c, idx, "big-circuit", c05BigProg(c.rng.Fork(), i), 0); err != nil {
 			return err
 		}
 		idx++
@@ -767,10 +802,17 @@ func c05Direct(c *Ctx) error {
 		key := r.Bytes([]int{16, 24, 32}[i%3])
 		// id universe: small ids, ids around the 16-bit boundary, large ids
 		used := map[int]bool{}
+		// every 6th case: circuits with more than 65536 wires (tmp indices
+		// beyond 16 bits) while all permanent ids are small
+		inflate := i%6 == 5
 		freshID := func() circuit.Wire {
 			for {
 				var v int
-				switch (i + r.Intn(3)) % 4 {
+				sel := (i + r.Intn(3)) % 4
+				if inflate {
+					sel = 0
+				}
+				switch sel {
 				case 0, 1:
 					v = r.Intn(300)
 				case 2:
@@ -797,6 +839,25 @@ func c05Direct(c *Ctx) error {
 		for k := 0; k < ncirc; k++ {
 			circ := GenCircuit(r, GenOpts{MinIn: 1, MaxIn: 6, MinGates: 1, MaxGates: 30, MaxOut: 5, Overwrite: true})
 			ni, no := circ.Inputs.Size(), circ.Outputs.Size()
+			if inflate && (k == 0 || r.Bool()) {
+				// move the wires from a random tmp wire on up by 70000
+				t := ni + r.Intn(circ.NumWires-no-ni+1)
+				f := func(w circuit.Wire) circuit.Wire {
+					if int(w) >= t {
+						return w + 70000
+					}
+					return w
+				}
+				for gi := range circ.Gates {
+					g := &circ.Gates[gi]
+					g.Input0, g.Output = f(g.Input0), f(g.Output)
+					if g.Op != circuit.INV {
+						g.Input1 = f(g.Input1)
+					}
+				}
+				circ.NumWires += 70000
+				c.Hist("direct:circuit-wires>65536")
+			}
 			ins := make([]circuit.Wire, ni)
 			x := make([]bool, ni)
 			for j := range ins {
